@@ -4,6 +4,7 @@ CONSTANTS
   DeepIds = {2, 3}
   BaseIds = {2, 3}
   KindIds = {1, 2, 3}
+  FinalKindIds = {}
   QuorumLowerBound = TRUE
   EmitScenarios = FALSE
 INVARIANTS CodeSound
